@@ -26,7 +26,19 @@
 (*   agg15  the table stores the start of the sample's 15 s bucket         *)
 (*   tlo/thi timestamp bounds: operator, and how the literal is derived    *)
 (*          from the request end: as is, truncated to seconds, to 15 s, to *)
-(*          the range bucket (floor / proper ceiling / floor + bucket)     *)
+(*          the range bucket (floor / proper ceiling / floor + bucket /    *)
+(*          "ceilps": proper ceiling of the end TRUNCATED TO THE SECOND    *)
+(*          first - a controller that drops the fraction and then rounds   *)
+(*          up stays below a fractional end whose second is aligned);      *)
+(*          sub = TRUE: the literal is not the named function itself but   *)
+(*          lies somewhere in its second, at or below it - a bound whose   *)
+(*          sub-second part was lost or garbled on the way to the          *)
+(*          statement (the model takes the worst case, the start of the    *)
+(*          second)                                                        *)
+(*   shift  sub-second part of what lies between the API parameters and    *)
+(*          the data window (PromQL range / offset with a millisecond      *)
+(*          part): the planners align the PARAMETERS (from + shift,        *)
+(*          to + shift) and subtract the shift afterwards                  *)
 (*   dlo/dhi date bounds: which date function of from / to                 *)
 (*   tyf/tys type filter                                                   *)
 (*   sig, metric, upIncl: the API: signal asked for (0 = the API has one   *)
@@ -41,7 +53,23 @@
 (*              the other signal                                           *)
 (* Miss(d, ..)  a row inside the window, of the requested signal, whose    *)
 (*              index row is stored under the writer's day, is rejected by *)
-(*              a date bound or the type filter                            *)
+(*              a date bound or the type filter; or (tables with a         *)
+(*              timestamp) whose stored timestamp is STRICTLY inside the   *)
+(*              window is rejected by a timestamp bound or the type filter *)
+(*              (strictly: whether the instants from / to themselves       *)
+(*              belong to the window is the API's convention, not a matter *)
+(*              of this property)                                          *)
+(*                                                                         *)
+(* Sub-second resolution.  The quanta are nested like the real ones: the   *)
+(* second has INTERIOR instants (QSec = 3 ticks: positions 1 and 2 stand   *)
+(* for a fractional millisecond / nanosecond part), 15 s is a multiple of  *)
+(* the second, the range bucket a multiple of the second but not of 15 s.  *)
+(* A bound that falls back to the start of the second of a fractional end  *)
+(* therefore has rows strictly between it and the end (Miss on the upper   *)
+(* side, Leak on the lower side of a query that may not widen).  The       *)
+(* binding concretises position p of a tick within its second as a         *)
+(* fractional part (p = 0: whole second) and the position within 15 s as   *)
+(* whole seconds, on every API whose unit can express it.                  *)
 (***************************************************************************)
 EXTENDS Integers, FiniteSets, TLC
 
@@ -64,11 +92,18 @@ Max2(a, b) == IF a > b THEN a ELSE b
 Derive(t, w, dir) ==
     IF w = "none" THEN t
     ELSE LET q == Quantum(w) f == Floor(t, q)
+             s == Floor(t, QSec)     \* the end with its fraction dropped (time.Unix(t.Unix(), 0), int64(float))
          IN CASE dir = "floor" -> f
               [] dir = "ceilp" -> IF f = t THEN t ELSE f + q
+              [] dir = "ceilps" -> IF Floor(s, q) = s THEN s ELSE Floor(s, q) + q
               [] OTHER -> f + q          \* "ceilx": Truncate(d).Add(d)
 
 -----------------------------------------------------------------------------
+\* the literal of a timestamp bound: the named derivation of the API parameter (data instant + shift), shifted back;
+\* sub: cut to the start of the second it lies in
+BoundLit(t, w, dir, sub, sh) ==
+    LET x == Derive(t + sh, w, dir) - sh IN IF sub THEN Floor(x, QSec) ELSE x
+
 \* the mechanism: one operator per predicate the planners emit.  B is the record of literals the statement carries for
 \* one request (Lits below): they are computed once per request, as the planner does.
 
@@ -94,13 +129,13 @@ DHiLit(d, to, tzr) ==
       [] d.dhi = "localToM30" -> Day(to - Margin + tzr)
 
 \* metric queries may widen to the enclosing 15 s and range-bucket boundaries (the definition's side)
-OuterLo(d, from) == IF d.metric THEN Min2(Floor(from, Q15), Floor(from, QBucket)) ELSE from
-HiPoint(d, to) == IF d.metric THEN Max2(Floor(to, Q15) + Q15, Floor(to, QBucket) + QBucket) ELSE to
+OuterLo(d, from) == IF d.metric THEN Min2(Floor(from + d.shift, Q15), Floor(from + d.shift, QBucket)) - d.shift ELSE from
+HiPoint(d, to) == IF d.metric THEN Max2(Floor(to + d.shift, Q15) + Q15, Floor(to + d.shift, QBucket) + QBucket) - d.shift ELSE to
 OuterHi(d, to) == IF d.upIncl THEN HiPoint(d, to) ELSE HiPoint(d, to) - 1   \* inclusive
 
 Lits(d, from, to, tzr, tzw) ==
     [ from |-> from, to |-> to,
-      tl |-> Derive(from, d.tlo.w, "floor"), th |-> Derive(to, d.thi.w, d.thi.dir),
+      tl |-> BoundLit(from, d.tlo.w, "floor", d.tlo.sub, d.shift), th |-> BoundLit(to, d.thi.w, d.thi.dir, d.thi.sub, d.shift),
       dl |-> DLoLit(d, from, tzr), dh |-> DHiLit(d, to, tzr),
       \* the definition's side: what may be read at most
       ol |-> OuterLo(d, from), oh |-> OuterHi(d, to),
@@ -135,10 +170,17 @@ Required(d, B, ts, ty) ==
     /\ ts < B.to \/ (d.upIncl /\ ts = B.to)
     /\ d.sig = 0 \/ ty = d.sig
 
+\* the stored timestamp lies strictly inside the requested window
+Interior(d, B, ts) == StoredTs(d, ts) > B.from /\ StoredTs(d, ts) < B.to
+\* rejected by a date bound (index rows) / by a timestamp bound (rows that carry a timestamp)
+DateMiss(d, B, tzw, ts) == HasDate(d) /\ ~ DateOK(d, B, WriterDay(d, ts, tzw))
+TsMiss(d, B, ts) == HasTs(d) /\ Interior(d, B, ts) /\ ~ (TsLoOK(d, B, StoredTs(d, ts)) /\ TsHiOK(d, B, StoredTs(d, ts)))
+
 Miss(d, B, tzw, ts, ty) ==
-    /\ HasDate(d)
     /\ Required(d, B, ts, ty)
-    /\ ~ (DateOK(d, B, WriterDay(d, ts, tzw)) /\ TyOK(d, ty))
+    /\ \/ DateMiss(d, B, tzw, ts)
+       \/ TsMiss(d, B, ts)
+       \/ ~ TyOK(d, ty)
 
 \* witnesses.  The search is factored (types are independent of time) so that one request costs |Ticks| + |Types|
 \* evaluations; MC_Window!WitnessSound / WitnessComplete tie the result to Leak / Miss above.
@@ -155,8 +197,8 @@ MissWitness(d, B, tzw) ==
     LET reqTy == {ty \in Types : d.sig = 0 \/ ty = d.sig}
         badTy == {ty \in reqTy : ~ TyOK(d, ty)}
         inWin(ts) == ts >= B.from /\ (ts < B.to \/ (d.upIncl /\ ts = B.to))
-        bad(ts) == inWin(ts) /\ (badTy # {} \/ ~ DateOK(d, B, WriterDay(d, ts, tzw)))
-    IN IF HasDate(d) /\ reqTy # {} /\ \E ts \in Ticks : bad(ts)
+        bad(ts) == inWin(ts) /\ (badTy # {} \/ DateMiss(d, B, tzw, ts) \/ TsMiss(d, B, ts))
+    IN IF reqTy # {} /\ \E ts \in Ticks : bad(ts)
        THEN LET ts == CHOOSE t \in Ticks : bad(t)
             IN <<ts, IF badTy # {} THEN CHOOSE ty \in badTy : TRUE ELSE CHOOSE ty \in reqTy : TRUE>>
        ELSE None
